@@ -27,6 +27,11 @@ static inline void waiter(int me){
 #if VN == 2
 void t0(void){ dec(0); }
 void t1(void){ waiter(1); }
+#elif VN == 4      /* two decrementers, two waiters */
+void t0(void){ dec(0); }
+void t1(void){ dec(1); }
+void t2(void){ waiter(2); }
+void t3(void){ waiter(3); }
 #elif NDEC == 2
 void t0(void){ dec(0); }
 void t1(void){ dec(1); }
